@@ -6,6 +6,8 @@ import (
 	"context"
 	"errors"
 	"fmt"
+	"github.com/attestantio/go-eth2-client/api"
+	"github.com/attestantio/vouch/services/beaconblockproposer"
 
 	apiv1 "github.com/attestantio/go-eth2-client/api/v1"
 	"github.com/attestantio/go-eth2-client/spec/phase0"
@@ -213,4 +215,88 @@ func VerifC20_SubscriptionInfosBounded() {
 		vnd.Assert(k+1 >= epoch, "C20.subscriptions.nothing-older-than-previous-epoch-after-a-head-event")
 	}
 	vnd.Cover("C20.subscriptions.checked")
+}
+
+type hHeaders struct {
+	fail bool
+	slot phase0.Slot
+}
+
+func (h *hHeaders) BeaconBlockHeader(_ context.Context, _ *api.BeaconBlockHeaderOpts) (*api.Response[*apiv1.BeaconBlockHeader], error) {
+	if h.fail {
+		return nil, errors.New("mock header failure")
+	}
+	return &api.Response[*apiv1.BeaconBlockHeader]{Data: &apiv1.BeaconBlockHeader{Header: &phase0.SignedBeaconBlockHeader{Message: &phase0.BeaconBlockHeader{Slot: h.slot}}}, Metadata: map[string]any{}}, nil
+}
+
+// VerifC03_ProposeEarly: the early-proposal job asks the scheduler to run the
+// slot's proposal job now exactly when the chain head is the block of the slot
+// before the duty's; a failure to obtain the head starts nothing; the proposal
+// job itself is never run twice by it.
+func VerifC03_ProposeEarly() {
+	vstub.SPEChoices = []uint64{4}
+	e := newCtlEnv()
+	h := &hHeaders{fail: vnd.Bool("head.fail"), slot: phase0.Slot(vnd.U64("head.slot"))}
+	e.s.beaconBlockHeadersProvider = h
+	slot := phase0.Slot(vnd.U64("duty.slot"))
+	vnd.Assume(uint64(slot) >= 1 && uint64(slot) < 1<<40)
+	name := fmt.Sprintf("Beacon block proposal for slot %d", slot)
+	if vnd.Bool("proposal-job-still-scheduled") {
+		e.sched.Existing = append(e.sched.Existing, name)
+	}
+	duty := beaconblockproposer.NewDuty(slot, 9)
+	e.s.proposeEarly(context.Background(), duty)
+	upToDate := !h.fail && h.slot == slot-1
+	ran := 0
+	for _, r := range e.sched.RunNow {
+		vnd.Assert(r == name, "C03.early.only-the-slots-own-proposal-job")
+		ran++
+	}
+	if upToDate {
+		vnd.Cover("C03.early.head-up-to-date")
+	}
+	wantRan := 0
+	if upToDate && len(e.sched.Existing) == 1 {
+		wantRan = 1
+	}
+	vnd.Assert(ran == wantRan, "C03.early.proposal-started-now-iff-head-is-the-previous-slots-block")
+}
+
+// VerifC03_PrepareForEpoch: the mid-epoch preparation sets up the attestation
+// jobs of the next epoch from the duties then obtained (C03.attest rules) and
+// asks for the beacon committee subscriptions of that epoch; without accounts it
+// sets up nothing.
+func VerifC03_PrepareForEpoch() {
+	vstub.SPEChoices = []uint64{4}
+	e := newCtlEnv()
+	accounts := &hValidating{}
+	switch vnd.Choose("accounts", 3) {
+	case 1:
+		accounts.failAll = true
+	case 2:
+		accounts.none = true
+	}
+	e.s.validatingAccountsProvider = accounts
+	subs := &hSubscriber{}
+	e.s.beaconCommitteeSubscriber = subs
+	cur := uint64(e.ct.Cur)
+	vnd.Assume(cur < 1<<30)
+	next := cur/4 + 1
+	h := &hAttDuties{}
+	e.s.attesterDutiesProvider = h
+	dslot := next*4 + uint64(vnd.Choose("duty.offset", 4))
+	h.duties = []*apiv1.AttesterDuty{{Slot: phase0.Slot(dslot), ValidatorIndex: 1, CommitteeIndex: 2, CommitteeLength: 8, CommitteesAtSlot: 4, ValidatorCommitteeIndex: 3}}
+	e.s.prepareForEpoch(context.Background(), &prepareForEpochData{epoch: phase0.Epoch(next)})
+	vnd.Quiesce()
+	name := fmt.Sprintf("Attestations for slot %d", dslot)
+	if accounts.failAll || accounts.none {
+		vnd.Cover("C03.prepare.no-accounts")
+		vnd.Assert(len(e.sched.Jobs) == 0 && subs.calls == 0, "C03.prepare.nothing-without-validating-accounts")
+		return
+	}
+	vnd.Cover("C03.prepare.prepared")
+	vnd.Assert(len(h.asked) == 1 && uint64(h.asked[0].Epoch) == next, "C03.prepare.duties-of-the-next-epoch-asked")
+	vnd.Assert(e.sched.Count(name) == 1 && len(e.sched.Jobs) == 1, "C03.prepare.attestation-job-for-the-next-epochs-duty")
+	vnd.Assert(subs.calls == 1, "C03.prepare.subscriptions-of-the-next-epoch-asked")
+	vnd.Assert(e.s.HasPendingAttestations(context.Background(), phase0.Slot(dslot)) && !e.s.HasPendingAttestations(context.Background(), phase0.Slot(dslot+1)), "C20.pending.reported-for-the-slots-with-a-job-only")
 }
